@@ -285,7 +285,7 @@ func newTrace(sc *Scenario, r *runner) *trace {
 
 func (t *trace) opLine(s *Step) string {
 	switch s.Op {
-	case "store", "finalise", "rejected":
+	case "store", "finalise", "rejected", "genesis":
 		switch s.Tamper {
 		case "newroot":
 			// the offered block claims a root its diff does not produce
